@@ -138,7 +138,7 @@ func (pp *patParser) expr() *Pat {
 			p = &Pat{K: "nil"}
 		case id == "true" || id == "false":
 			p = &Pat{K: "const", Name: id}
-		case pp.peek() == '(' && (id == "len" || id == "cap" || id == "ok"):
+		case pp.peek() == '(' && (id == "len" || id == "cap" || id == "ok" || id == "cur"):
 			pp.pos++
 			a := pp.expr()
 			pp.ws()
@@ -269,6 +269,8 @@ func (p *Pat) Match(t *Term, b Binds) bool {
 		return t.K == TLen && p.Sub[0].Match(t.Sub[0], b)
 	case "cap":
 		return t.K == TCap && p.Sub[0].Match(t.Sub[0], b)
+	case "cur":
+		return t.K == TVar && len(t.Sub) == 1 && p.Sub[0].Match(t.Sub[0], b)
 	case "ok":
 		return t.K == TOk && p.Sub[0].Match(t.Sub[0], b)
 	case "assert":
